@@ -151,6 +151,95 @@ fn check_cnf_utils(clauses: &[Clause], evals: &mut u64) -> Option<(String, Strin
     None
 }
 
+/// Cnf utilities on a clause list written over sparse, large labels (`map[i]` = label of small
+/// variable i): construction, variable count, eval / is_sat_partial on all assignments of the
+/// occurring variables (all other variables false / unassigned), condition on every literal
+fn check_cnf_utils_sparse(clauses: &[Clause], map: &[usize], evals: &mut u64) -> Option<(String, String)> {
+    let k = map.len();
+    let wide: Vec<Clause> = clauses.iter().map(|c| c.iter().map(|&(v, p)| (map[v], p)).collect()).collect();
+    let cnf: Cnf = match guarded(|| to_cnf(&wide)) {
+        Ok(c) => c,
+        Err(p) => return Some(("new-panic".into(), format!("Cnf::new panicked: {}", p))),
+    };
+    let got: Vec<Clause> = cnf.clauses().iter().map(|c| c.iter().map(|l| (l.label().value_usize(), l.polarity())).collect()).collect();
+    let as_sets = |v: &Vec<Clause>| -> Vec<BTreeSet<Lit>> { v.iter().map(|c| c.iter().cloned().collect()).collect() };
+    *evals += 1;
+    if as_sets(&got) != as_sets(&normalise(&wide)) {
+        return Some(("new-clauses".into(), format!("Cnf::new holds {:?}, the input denotes {:?}", got, wide)));
+    }
+    let nn = num_vars(&wide);
+    if cnf.num_vars() != nn {
+        return Some(("num-vars".into(), format!("num_vars() = {}, largest index + 1 = {}", cnf.num_vars(), nn)));
+    }
+    let f: TT = tt::of_cnf(clauses, k);
+    for a in 0..(1usize << k) {
+        let mut v = vec![false; nn];
+        for i in 0..k {
+            if map[i] < nn {
+                v[map[i]] = (a >> i) & 1 == 1;
+            }
+        }
+        *evals += 1;
+        match guarded(|| cnf.eval(&v)) {
+            Ok(r) => {
+                if r != tt::eval(f, a) {
+                    return Some(("eval".into(), format!("eval with the occurring variables set to {:#b} = {}", a, r)));
+                }
+            }
+            Err(p) => return Some(("eval".into(), format!("eval panicked: {}", p))),
+        }
+    }
+    for code in 0..3usize.pow(k as u32) {
+        let (_, a) = pm_of(code, k);
+        let mut widea: Vec<Option<bool>> = vec![None; nn];
+        for i in 0..k {
+            if map[i] < nn {
+                widea[map[i]] = a[i];
+            }
+        }
+        let wantp = clauses.iter().all(|c| c.iter().any(|&(v, p)| a[v] == Some(p)));
+        *evals += 1;
+        match guarded(|| cnf.is_sat_partial(&PartialModel::from_assignments(&widea))) {
+            Ok(r) => {
+                if r != wantp {
+                    return Some(("is-sat-partial".into(), format!("is_sat_partial({:?} on the occurring variables) = {}, definition gives {}", a, r, wantp)));
+                }
+            }
+            Err(p) => return Some(("is-sat-partial".into(), format!("panicked: {}", p))),
+        }
+    }
+    for v in 0..k {
+        if map[v] >= nn {
+            continue;
+        }
+        for b in [true, false] {
+            *evals += 1;
+            match guarded(|| cnf.condition(Literal::new(VarLabel::new(map[v] as u64), b))) {
+                Ok(c2) => {
+                    let mut small: Vec<Clause> = Vec::new();
+                    for c in c2.clauses().iter() {
+                        let mut sc = Vec::new();
+                        for l in c.iter() {
+                            match map.iter().position(|&m| m == l.label().value_usize()) {
+                                Some(i) if i != v => sc.push((i, l.polarity())),
+                                _ => return Some(("condition".into(), format!("condition(label {} = {}) mentions label {}", map[v], b, l.label().value()))),
+                            }
+                        }
+                        small.push(sc);
+                    }
+                    let g = tt::of_cnf(&small, k);
+                    let w = tt::cofactor(f, v, b, k);
+                    if g != w {
+                        return Some(("condition".into(), format!("condition(label {} = {}) has models {:#x}, the restriction has {:#x}", map[v], b, g, w)));
+                    }
+                }
+                Err(p) => return Some(("condition".into(), format!("condition panicked: {}", p))),
+            }
+        }
+    }
+    None
+}
+
 // ---------------------------------------------------------------------------------------------
 // hasher: explicit-state exploration of push / decide / pop
 
@@ -189,6 +278,11 @@ fn model_of(a: &[Option<bool>]) -> PartialModel {
 }
 
 fn explore_hasher(clauses: &[Clause], max_levels: usize, rep: &mut Report) -> Option<(Vec<HAct>, String)> {
+    explore_hasher_on(clauses, max_levels, rep, None)
+}
+
+/// `vars`: the variables that may be decided (None = all of 0..num_vars)
+fn explore_hasher_on(clauses: &[Clause], max_levels: usize, rep: &mut Report, vars: Option<&[usize]>) -> Option<(Vec<HAct>, String)> {
     let norm = normalise(clauses);
     let cnf = to_cnf(clauses);
     let n = cnf.num_vars();
@@ -236,7 +330,8 @@ fn explore_hasher(clauses: &[Clause], max_levels: usize, rep: &mut Report) -> Op
             if s.levels.len() < max_levels {
                 acts.push(HAct::Push);
             }
-            for v in 0..n {
+            let all: Vec<usize> = (0..n).collect();
+            for &v in vars.unwrap_or(&all).iter() {
                 if top[v].is_none() {
                     acts.push(HAct::Decide(v, true));
                     acts.push(HAct::Decide(v, false));
@@ -285,7 +380,8 @@ fn explore_hasher(clauses: &[Clause], max_levels: usize, rep: &mut Report) -> Op
     let mut h = cnf.hasher().clone();
     let before = h.clone();
     h.push();
-    for v in 0..n {
+    let all: Vec<usize> = (0..n).collect();
+    for &v in vars.unwrap_or(&all).iter() {
         h.decide(Literal::new(VarLabel::new(v as u64), v % 2 == 0));
     }
     h.pop();
@@ -516,6 +612,79 @@ pub fn run(ctx: &Ctx) -> Report {
         rep.add_extra("n2_repeated_literal_clause_lists", fam.traces);
         rep.merge(fam);
     }
+    // long inputs (utilities only: prime products of long lists may wrap), wide clauses over 5
+    // variables (utilities + hasher with <= 2 levels), sparse large labels (utilities + hasher
+    // deciding the occurring variables only)
+    {
+        let mut lists: Vec<(Vec<Clause>, u8)> = long_lists(ctx.tier.pick(9, 14)).into_iter().map(|c| (c, 0u8)).collect();
+        let pats: Vec<usize> = if ctx.tier == Tier::Quick { vec![0b1111, 0b0101] } else { (0..16).collect() };
+        lists.extend(crate::props::c09::wide_family(&pats).into_iter().step_by(ctx.tier.pick(3, 1)).map(|c| (c, 1u8)));
+        let chunks: Vec<&[(Vec<Clause>, u8)]> = lists.chunks(16).collect();
+        let fam = par_run(ctx, &chunks, |_, chunk| {
+            let mut r = Report::default();
+            r.exhaustive = true;
+            for (clauses, kind) in chunk.iter() {
+                r.traces += 1;
+                r.transitions += 1;
+                let mut ev = 0;
+                if let Some((k, w)) = check_cnf_utils(clauses, &mut ev) {
+                    r.violation(format!("cnf:{}", k), format!("clause list {}: {}", cnf_json(clauses), w), json!({"kind": "cnf", "cnf": cnf_json(clauses)}));
+                }
+                r.evaluations += ev;
+                if *kind == 1 {
+                    let before = r.states;
+                    if let Some((hist, w)) = explore_hasher(clauses, 2, &mut r) {
+                        r.violation("hasher:residual-hash", format!("clause list {} after {:?}: {}", cnf_json(clauses), hist, w), json!({"kind": "hasher", "cnf": cnf_json(clauses), "history": hact_json(&hist), "levels": 2}));
+                    }
+                    r.distinct_nontrivial += r.states - before;
+                }
+                if r.n_violations > 32 {
+                    break;
+                }
+            }
+            r
+        });
+        rep.add_extra("long_and_wide_clause_lists", fam.traces);
+        rep.bound("long_and_wide", json!({"long_lists": "clauses of <= k literals / lists of <= k unit clauses with marked positions", "wide": "one width-4 clause + two binary clauses over 5 variables, hasher with <= 2 levels"}));
+        rep.merge(fam);
+        let t3 = clause_types(3);
+        let mut sets = sequences(64, 2);
+        if ctx.tier == Tier::Quick {
+            sets = sets.into_iter().step_by(2).collect();
+        }
+        let maps: Vec<[usize; 3]> = vec![[0, 64, 1], [63, 64, 127], [128, 0, 64]];
+        let chunks: Vec<&[Vec<usize>]> = sets.chunks(64).collect();
+        let fam = par_run(ctx, &chunks, |_, chunk| {
+            let mut r = Report::default();
+            r.exhaustive = true;
+            for s in chunk.iter() {
+                let clauses: Vec<Clause> = s.iter().map(|&i| t3[i].clone()).collect();
+                for m in maps.iter() {
+                    r.traces += 1;
+                    r.transitions += 1;
+                    let mut ev = 0;
+                    if let Some((k, w)) = check_cnf_utils_sparse(&clauses, m, &mut ev) {
+                        r.violation(format!("cnf:{}", k), format!("clause list {} relabelled by {:?}: {}", cnf_json(&clauses), m, w), json!({"kind": "cnf_sparse", "cnf": cnf_json(&clauses), "map": m.to_vec()}));
+                    }
+                    r.evaluations += ev;
+                    let wide: Vec<Clause> = clauses.iter().map(|c| c.iter().map(|&(v, p)| (m[v], p)).collect()).collect();
+                    let occ: Vec<usize> = { let mut o: Vec<usize> = wide.iter().flat_map(|c| c.iter().map(|l| l.0)).collect(); o.sort(); o.dedup(); o };
+                    let before = r.states;
+                    if let Some((hist, w)) = explore_hasher_on(&wide, 3, &mut r, Some(&occ)) {
+                        r.violation("hasher:residual-hash", format!("clause list {} after {:?}: {}", cnf_json(&wide), hist, w), json!({"kind": "hasher_sparse", "cnf": cnf_json(&wide), "history": hact_json(&hist)}));
+                    }
+                    r.distinct_nontrivial += r.states - before;
+                }
+                if r.n_violations > 32 {
+                    break;
+                }
+            }
+            r
+        });
+        rep.add_extra("sparse_label_clause_lists", fam.traces);
+        rep.bound("sparse_labels", json!({"label_maps": maps.iter().map(|m| m.to_vec()).collect::<Vec<_>>(), "clause_lists": sets.len(), "hasher": "<= 3 levels, decisions on the occurring variables"}));
+        rep.merge(fam);
+    }
     rep.sample(json!({"cnf": [], "check": "wmc of the empty formula = 1"}));
     rep.sample(json!({"cnf": [[1, 2], [-1, 3]], "hasher_history": ["push", {"decide": 1}, "push", {"decide": -3}, "pop"]}));
     rep.assumptions.push("'residuals coincide' is read index-wise (clause i keeps the same unassigned literals), because primes are assigned per literal occurrence; decide(l) is always accompanied by setting l in the model passed to hash (the protocol)".into());
@@ -533,9 +702,26 @@ pub fn replay(_ctx: &Ctx, case: &Value) -> Report {
                 rep.violation(format!("cnf:{}", k), w, case.clone());
             }
         }
+        Some("cnf_sparse") => {
+            let c = cnf_from_json(&case["cnf"]);
+            let m: Vec<usize> = case["map"].as_array().map(|a| a.iter().filter_map(|x| x.as_u64()).map(|x| x as usize).collect()).unwrap_or_default();
+            let mut ev = 0;
+            if m.len() == 3 {
+                if let Some((k, w)) = check_cnf_utils_sparse(&c, &m, &mut ev) {
+                    rep.violation(format!("cnf:{}", k), w, case.clone());
+                }
+            }
+        }
+        Some("hasher_sparse") => {
+            let c = cnf_from_json(&case["cnf"]);
+            let occ: Vec<usize> = { let mut o: Vec<usize> = c.iter().flat_map(|c| c.iter().map(|l| l.0)).collect(); o.sort(); o.dedup(); o };
+            if let Some((h, w)) = explore_hasher_on(&c, 3, &mut rep, Some(&occ)) {
+                rep.violation("hasher:residual-hash", format!("{:?}: {}", h, w), case.clone());
+            }
+        }
         Some("hasher") => {
             let c = cnf_from_json(&case["cnf"]);
-            let nv = num_vars(&c);
+            let nv = case["levels"].as_u64().map(|x| x as usize - 1).unwrap_or(num_vars(&c));
             if let Some((h, w)) = explore_hasher(&c, nv + 1, &mut rep) {
                 rep.violation("hasher:residual-hash", format!("{:?}: {}", h, w), case.clone());
             }
